@@ -26,7 +26,7 @@ func init() {
 		},
 		Run:            c06Run,
 		Floor:          func(tier string) int { return 1500 },
-		Rule:           "RNN/GRU/LSTM with seq 1..10, batch 1..4, input 1..5, hidden 1..6; every subset of the optional inputs B, initial_h, initial_c, P present / skipped by \"\" / truncated; activation lists (default, gonnx spelling, ONNX spelling, other ONNX activations, unknown names, wrong count), linear_before_reset and input_forget absent/0/1; per-gate distinct biases and asymmetric weights (|w| <= 0.4). Oracles: (1) float64 ONNX recurrence (gate order iofc / zrh, Appendix A.6): output shapes, Y_h == Y[last], RNN/GRU checked step-wise from the observed Y (Y[t] vs cell(X[t], observed Y[t-1])), LSTM whole-sequence within 2e-4; (2) attribute honoured-or-refused: a value equal to the reference without the attribute (when the two differ) is the 'ignored' violation; (3) metamorphic split on the real code: run(X[:s]) then run(X[s:], state) must reproduce run(X) for a random split point. float32 MUST_EQUAL, float64 MAY_REFUSE, ONNX-invalid MUST_ERROR. Non-trivial = a reference with two gates exchanged differs from the true one by more than 10x the tolerance (so gate order and bias slots are identified); distinct = (operator, sizes, optional-input pattern, attributes).",
+		Rule:           "RNN/GRU/LSTM with seq 1..10, batch 1..4, input 1..5, hidden 1..6; every subset of the optional inputs B, initial_h, initial_c, P present / skipped by \"\" / truncated; activation lists (default, gonnx spelling, ONNX spelling, other ONNX activations, unknown names, wrong count), linear_before_reset and input_forget absent/0/1; per-gate distinct biases and asymmetric weights (|w| <= 0.4). Oracles: (1) float64 ONNX recurrence (gate order iofc / zrh, Appendix A.6): output shapes, Y_h == Y[last], RNN/GRU checked step-wise from the observed Y (Y[t] vs cell(X[t], observed Y[t-1])), LSTM whole-sequence within 2e-4; (2) attribute honoured-or-refused: a value equal to the reference without the attribute (when the two differ) is the 'ignored' violation; (3) metamorphic split on the real code: run(X[:s]) then run(X[s:], state) must reproduce run(X) for a random split point. float32 MUST_EQUAL, float64 MAY_REFUSE, ONNX-invalid MUST_ERROR. Non-trivial = a reference with two gates exchanged differs from the true one by more than 10x the tolerance (so gate order and bias slots are identified); distinct = (operator, sizes, optional-input pattern, attributes)." + ruleReused + ruleChained,
 		RaceInThorough: true,
 		Technique:      "runtime monitoring: differential execution against a float64 reference recurrence (step-wise from the observed trace), discriminative non-triviality, and a metamorphic split relation on the real code",
 		Assumptions:    []string{"ONNX recurrence equations as written in DESIGN.md Appendix A.6", "weights bounded so that rounding differences do not amplify along the sequence"},
@@ -535,6 +535,96 @@ func c06Split(c *Ctx, rc recCase, whole mon.Outcome) {
 	// the same relation as a history on ONE loaded model (weights as initializers): whole
 	// sequence, then the two pieces with the state fed back, then the whole sequence again
 	c06SplitModel(c, rc, s)
+	c06SplitChained(c, rc, s, whole)
+}
+
+// c06SplitChained: the same relation as ONE graph of two chained nodes of the
+// operator - the first consumes steps [0,s), the second steps [s,S) with the
+// first node's Y_h (and Y_c) as initial state. The first node's Y is omitted
+// ("") in half of the cases and the second node names its skipped optional
+// inputs "", as exporters of "only the last state" pipelines do.
+func c06SplitChained(c *Ctx, rc recCase, s int, whole mon.Outcome) {
+	g := &mon.Graph{}
+	feed := map[string]*ref.T{}
+	addIn := func(name string, t *ref.T) {
+		g.Inputs = append(g.Inputs, mon.GInput{Name: name, DT: t.DT, Dims: mon.FixedDims(t.Shape)})
+		feed[name] = t
+	}
+	addIn("x1", sliceSeq(rc.x, 0, s))
+	addIn("x2", sliceSeq(rc.x, s, rc.S))
+	nIn := 6
+	if rc.op == "LSTM" {
+		nIn = 8
+	}
+	n1 := make([]string, nIn)
+	n2 := make([]string, nIn)
+	for i, t := range rc.req.Inputs {
+		if t == nil || i == 0 {
+			continue
+		}
+		name := fmt.Sprintf("w%d", i)
+		if i == 5 || i == 6 {
+			addIn(name, t)
+		} else {
+			g.Inits = append(g.Inits, mon.GInit{Name: name, T: t, Raw: c.R.Bool()})
+		}
+		n1[i], n2[i] = name, name
+	}
+	n1[0], n2[0] = "x1", "x2"
+	n2[5] = "h1"
+	out1, out2 := []string{"y1", "h1"}, []string{"y2", "h2"}
+	if rc.op == "LSTM" {
+		n2[6] = "c1"
+		out1, out2 = append(out1, "c1"), append(out2, "c2")
+	}
+	omitY := c.R.Bool()
+	if omitY {
+		out1[0] = ""
+	}
+	trim := func(names []string) []string {
+		for len(names) > 3 && names[len(names)-1] == "" && c.R.Bool() {
+			names = names[:len(names)-1]
+		}
+		return names
+	}
+	g.Nodes = []mon.GNode{
+		{Op: rc.op, Name: "first", Inputs: trim(n1), Outputs: out1, Attrs: rc.req.Attrs},
+		{Op: rc.op, Name: "second", Inputs: trim(n2), Outputs: out2, Attrs: rc.req.Attrs},
+	}
+	for _, o := range out2 {
+		g.Outputs = append(g.Outputs, mon.GInput{Name: o, NoType: true})
+	}
+	o := mon.RunGraph(g, feed)
+	c.Eval(1)
+	if o.Kind != mon.Value || len(o.Vals) < 2 || o.Vals[0] == nil || o.Vals[1] == nil {
+		c.Violation(rc.op+":chained-split-fails", "the whole sequence runs through the operator, a graph of two chained %s nodes (first Y omitted: %v, inputs %v / %v) does not: %s | %s", rc.op, omitY, g.Nodes[0].Inputs, g.Nodes[1].Inputs, trunc(o.Describe(), 300), trunc(rc.req.Describe(), 300))
+		return
+	}
+	n := rc.B * rc.H
+	near := func(a, b float64) bool { return a == b || math.Abs(a-b) <= 1e-6*(1+math.Abs(b)) }
+	if want := []int{rc.S - s, 1, rc.B, rc.H}; !ref.ShapeEq(o.Vals[0].Shape, want) {
+		c.Violation(rc.op+":chained-split-differs-from-whole", "Y of the second node has shape %v, expected %v", o.Vals[0].Shape, want)
+		return
+	}
+	for i := 0; i < (rc.S-s)*n; i++ {
+		if !near(o.Vals[0].F(i), whole.Vals[0].F(s*n+i)) {
+			c.Violation(rc.op+":chained-split-differs-from-whole", "two chained nodes: Y(second node) element %d: %v vs whole %v (split at %d of %d, first Y omitted: %v) | %s", i, o.Vals[0].F(i), whole.Vals[0].F(s*n+i), s, rc.S, omitY, trunc(rc.req.Describe(), 300))
+			return
+		}
+	}
+	for k := 1; k < len(o.Vals) && k < len(whole.Vals); k++ {
+		for i := 0; i < n; i++ {
+			if o.Vals[k] == nil || whole.Vals[k] == nil || len(o.Vals[k].Bits) != n {
+				c.Violation(rc.op+":chained-split-differs-from-whole", "two chained nodes: final state output %d is missing or has the wrong size", k)
+				return
+			}
+			if !near(o.Vals[k].F(i), whole.Vals[k].F(i)) {
+				c.Violation(rc.op+":chained-split-differs-from-whole", "two chained nodes: final state %d element %d: %v vs whole %v (split at %d of %d) | %s", k, i, o.Vals[k].F(i), whole.Vals[k].F(i), s, rc.S, trunc(rc.req.Describe(), 300))
+				return
+			}
+		}
+	}
+	c.Count("split-relations-checked-through-two-chained-nodes", 1)
 }
 
 func c06SplitModel(c *Ctx, rc recCase, s int) {
